@@ -1,0 +1,32 @@
+//go:build verif
+
+package consul
+
+import (
+	"github.com/fabiolb/fabio/config"
+	"github.com/hashicorp/consul/api"
+)
+
+// Verification hooks (build tag verif) for property C01: thin exported wrappers around unexported code so
+// that the correspondence harness in /verif can run the real implementation in-process. No behaviour is
+// changed.
+
+// VerifPassingServices exposes passingServices.
+func VerifPassingServices(checks []*api.HealthCheck, status []string, strict bool) []*api.HealthCheck {
+	return passingServices(checks, status, strict)
+}
+
+// VerifChecksWithTagPrefix exposes checksWithTagPrefix.
+func VerifChecksWithTagPrefix(prefix string, checks api.HealthChecks) api.HealthChecks {
+	return checksWithTagPrefix(prefix, checks)
+}
+
+// VerifMakeConfig runs ServiceMonitor.makeConfig for the given passing checks; the catalog is whatever the
+// Consul HTTP API at cfg.Addr answers (the harness points it at an httptest fake).
+func VerifMakeConfig(cfg *config.Consul, dc string, passing []*api.HealthCheck) (string, error) {
+	c, err := api.NewClient(&api.Config{Address: cfg.Addr, Scheme: cfg.Scheme})
+	if err != nil {
+		return "", err
+	}
+	return NewServiceMonitor(c, cfg, dc).makeConfig(passing), nil
+}
